@@ -1,5 +1,6 @@
 """C06 — flush, compaction, caching and reopen never change query answers (E2 engine)."""
 from . import e2gen as G
+from . import ck as CK
 
 MODEL_TARGETS = ["theories/Spec/Machine.vo"]
 TRUSTED = ["the specification machine (Spec/Machine.v) treats rotate/flush/compaction/clean reopen as identities: "
@@ -26,6 +27,9 @@ def explore(ctx):
                              "per-level compaction / auto compaction / clean reopen placed between operations, over an option grid "
                              "(level count 1-4, tiny blocks and index partitions, bloom on/off, compression, small cache, vlog); "
                              "non-trivial = a program with a delete, a flush or compaction and at least two commits; distinct by program text")
+    r = CK.merge(r, CK.explore(ctx, "C06"))
+    r["coverage"]["rule"] += ("; plus compaction-iterator cases: all version lists of one key up to length 3 (4 in thorough) x snapshot "
+                              "subsets x bottom x versioning, and random multi-key multi-run cases, each checked against compact_key_view and against Lsm/CompactKey.v")
     return r
 
 
